@@ -454,7 +454,7 @@ def rebaseline(unit, tier="thorough", keep=False):
     for f in res.failures:
         print("FAILED:", f["obl"].id, "\n", f["obl"].detail[:3000])
     if not keep:
-        shutil.rmtree(os.path.join(ROOT, "out", "_baseline"), ignore_errors=True)
+        shutil.rmtree(os.path.join(ROOT, "out", "_baseline", unit), ignore_errors=True)
     return res
 
 
